@@ -349,7 +349,7 @@ def main(argv):
             rms = list(range(8, 33))
         else:
             cfgs = (a.configs.split(",") if a.configs else ["default", "m51", "w32", "zz32", "avx2"])
-            n1, n2 = int(40000 * a.scale), int(6000 * a.scale)
+            n1, n2 = int(160000 * a.scale), int(24000 * a.scale)
             rms = list(range(8, 33))
         exes = build_many(cfgs)
         m = run_sharded("c13", "gen", (n1 // NCPU + 1, n2 // NCPU + 1, True, rms), [(c, exes[c]) for c in cfgs], a.seed, timeout=7200)
